@@ -326,7 +326,10 @@ func runTopo(e *Env) {
 			}
 		}
 		pick := func() *node.Host { return others[tp.Next(len(others))] }
-		ws := []int{3, 3, 2, 2, 2, 2, 1, 1, 2, 1, 2, 0, 2, 0, 0, 0, 0, 2}
+		ws := []int{3, 3, 2, 2, 2, 2, 1, 1, 2, 1, 2, 0, 2, 0, 0, 0, 0, 2, 0}
+		if len(others) >= 1 && (!st.noLookup || st.firstRefresh) {
+			ws[18] = 2
+		}
 		if len(others) >= 2 {
 			ws[16] = 2
 		}
@@ -343,7 +346,7 @@ func runTopo(e *Env) {
 			ws[0], ws[13], ws[14], ws[15] = 0, 0, 0, 0
 		}
 		if e.NoFaults {
-			ws = []int{1, 0, 0, 0, 0, 0, 0, 0, 1, 0, 0, 0, 0, 0, 0, 0, 0, 0}
+			ws = []int{1, 0, 0, 0, 0, 0, 0, 0, 1, 0, 0, 0, 0, 0, 0, 0, 0, 0, 0}
 		}
 		peersBefore := cl.PeerQueries
 		preDown := map[string]bool{} // reported down before this step
@@ -360,6 +363,25 @@ func runTopo(e *Env) {
 			if tp.Chance(1, 2) {
 				st.eventFor("STATUS_CHANGE", "UP", h)
 			}
+		case 18: // an event arrives while the batch before it is about to be handled: a node is
+			// reported DOWN (it stays reachable), the driver's debounce interval passes and the
+			// goroutine that will handle the batch is held at its first instruction; then
+			// another event arrives; then the handler goes on. Both events count.
+			h := pick()
+			k.Rec("step down %s, next event before its batch is handled", h.Addr)
+			k.Fault("topo.event-arrives-before-previous-batch-is-handled")
+			k.ArmNext("events.handle")
+			st.down[h.Addr] = true
+			st.eventFor("STATUS_CHANGE", "DOWN", h)
+			k.SettleUntil(1500*time.Millisecond, 20*time.Millisecond, cl.Process, func() bool { return len(k.ParkedKeys()) > 0 })
+			if len(k.ParkedKeys()) > 0 {
+				k.Probe("event-batch-handler-held")
+			}
+			// (about an address nobody knows: it changes nothing by itself)
+			st.event("STATUS_CHANGE", "UP", "10.0.7.7")
+			k.Quiesce()
+			cl.Process()
+			k.ResumeAll()
 		case 17: // the node of the control connection is unreachable for a while (a restart):
 			// every connection to it drops, dials are refused, then it accepts connections
 			// again - and nobody sends an event about it (in a one-node cluster nobody can)
